@@ -1,5 +1,7 @@
 import Driver.Util
 import WildModel.Model.Link
+import WildModel.Model.Wrap
+import WildModel.Model.Needed
 namespace Driver
 open Wild.Link
 
@@ -35,8 +37,33 @@ def namesOf (fs : List File) : List Nat :=
     | .undef n _ => n
   (all.foldl (fun acc n => if acc.contains n then acc else acc ++ [n]) []).mergeSort (· ≤ ·)
 
+def linkAnswer (allowMulti : Bool) (fs : List File) : String :=
+    let mask := loadedMask fs
+    let bits := String.ofList (mask.map fun b => if b then '1' else '0')
+    let names := namesOf fs
+    let results := names.map fun n =>
+      let r := match resolveName allowMulti fs n with
+        | none => "none"
+        | some (.dup _ _) => "dup"
+        | some (.chosen f) => if mask.getD f false then toString f else "undef"
+      s!"{n}:{r}"
+    let errs := (undefinedErrors allowMulti fs).map fun (i, n) => s!"{i}/{n}"
+    s!"L={bits} E={",".intercalate errs} " ++ " ".intercalate results
+
 def opsLink (t : List String) : Option String :=
   match t with
+  | "lkw" :: w :: am :: rest => do
+    let fs ← parseLinkFiles rest
+    let W := (w.splitOn ",").filterMap (·.toNat?)
+    let fs' := wrapTransform W fs
+    -- per-reference renaming, so the caller can map observed references to transformed names
+    let ren := (List.range fs.length).flatMap fun i =>
+      match fs[i]? with
+      | some f => f.entries.filterMap fun e => match e with
+          | .undef n _ => some s!"{i}/{n}>{wrapLookupName W fs n}"
+          | _ => none
+      | none => []
+    some (s!"R={",".intercalate ren} " ++ linkAnswer (am == "1") fs')
   | "lk" :: am :: rest => do
     let fs ← parseLinkFiles rest
     let allowMulti := am == "1"
